@@ -111,50 +111,60 @@ def main(inp, outp):
         clause("the J2 propagator drifts the node of a sun-synchronous orbit at the mean solar rate", abs(drift - w_sun) <= 1e-6 * w_sun, "sso/j2-propagator",
                f"measured {drift} vs {w_sun}", {"a": a, "e": e, "i": i})
     # ---- Lambert: the returned velocities are those of the two-body orbit joining the two positions ----------------------------
+    # the attracting body is the one of the states' frame: the Earth, or the Sun (the ordinary use of a Lambert solver and of a B-plane),
+    # or the Moon - lengths scaled accordingly, tolerances relative
+    fframe, fmu, fscale, fvs = "EME2000", Earth.mu, 1.0, 1.0
+    if job.get("body") in ("sun", "moon"):
+        from beyond.constants import Moon, Sun
+        from beyond.frames import frames as fr, orient, center
+        body = Sun if job["body"] == "sun" else Moon
+        fframe = fr.Frame("VfM" + job["body"], orient.EME2000, center.Center("VfM" + job["body"] + "C", body=body))
+        fmu, fscale = body.mu, (1.0e4 if job["body"] == "sun" else 0.3)
+        fvs = math.sqrt(fmu / (1.5e7 * fscale)) / math.sqrt(Earth.mu / 1.5e7)        # typical speed relative to the Earth case
     for _ in range(job.get("nlambert", 0)):
-        a = float(rng.uniform(7.0e6, 3.0e7))
+        a = float(rng.uniform(7.0e6, 3.0e7)) * fscale
         e = float(rng.uniform(0.0, 0.6))
         inc = float(rng.uniform(0.05, 3.09))
         kep = [a, e, inc, float(rng.uniform(0, TWO_PI)), float(rng.uniform(0, TWO_PI)), float(rng.uniform(0, TWO_PI))]
-        T = TWO_PI * math.sqrt(a ** 3 / Earth.mu)
+        T = TWO_PI * math.sqrt(a ** 3 / fmu)
         frac = float(rng.uniform(0.05, 0.9)) if _ % 2 else float(rng.uniform(0.02, 0.12))      # every other transfer is a short arc
-        o0 = Orbit(kep, Date(2020, 1, 1), "keplerian", "EME2000", "Kepler")
+        o0 = Orbit(kep, Date(2020, 1, 1), "keplerian", fframe, "Kepler")
         if _ % 5 == 4:
             # nearly opposed positions (swept angle pi -/+ delta): "not collinear", but the plane is defined by a small cross product
             delta = [1e-2, -1e-3, 1e-4, -1e-5, 3e-6][(_ // 5) % 5]
-            tgt = Orbit(kep[:5] + [kep[5] + math.pi - delta], o0.date, "keplerian", "EME2000", "Kepler")
+            tgt = Orbit(kep[:5] + [kep[5] + math.pi - delta], o0.date, "keplerian", fframe, "Kepler")
             m0, m1 = float(o0.copy(form="keplerian_mean")[5]), float(tgt.copy(form="keplerian_mean")[5])
             frac = ((m1 - m0) % TWO_PI) / TWO_PI
         o1 = o0.propagate(o0.date + timedelta(seconds=frac * T))
         c0, c1 = np.asarray(o0.copy(form="cartesian"), float), np.asarray(o1.copy(form="cartesian"), float)
         hz = np.cross(c0[:3], c0[3:])[2]
-        data = {"kep": kep, "fraction_of_period": frac, "prograde": bool(hz > 0)}
+        data = {"kep": kep, "fraction_of_period": frac, "prograde": bool(hz > 0), "central_body": job.get("body", "earth")}
         try:
             s0, s1 = lambert(o0.copy(form="cartesian"), o1.copy(form="cartesian"), prograde=bool(hz > 0))
         except Exception as ex:
             clause("the Lambert solver returns a solution for an elliptic transfer of less than one revolution", False, "lambert/raises", f"{type(ex).__name__}: {ex}", data)
             continue
         res["evaluations"] += 1
-        arr = Orbit(np.asarray(s0), o0.date, "cartesian", "EME2000", "Kepler").propagate(o1.date)
+        arr = Orbit(np.asarray(s0), o0.date, "cartesian", fframe, "Kepler").propagate(o1.date)
         miss = float(np.linalg.norm(np.asarray(arr.copy(form="cartesian"), float)[:3] - c1[:3]))
         dv0 = float(np.linalg.norm(np.asarray(s0, float)[3:] - c0[3:]))
         dv1 = float(np.linalg.norm(np.asarray(s1, float)[3:] - c1[3:]))
         clause("the Lambert velocities, propagated with two-body dynamics for the transfer time, arrive at the target position within metres",
-               miss <= 10.0 and dv0 <= 1e-2 and dv1 <= 1e-2, "lambert/miss", f"miss distance {miss:.3f} m, velocity errors {dv0:.2e} {dv1:.2e} m/s for {kep} frac {frac:.3f}", data)
+               miss <= 10.0 * max(1.0, fscale / 7.0) and dv0 <= 1e-2 * fvs and dv1 <= 1e-2 * fvs, "lambert/miss", f"miss distance {miss:.3f} m, velocity errors {dv0:.2e} {dv1:.2e} m/s for {kep} frac {frac:.3f}", data)
     # ---- B-plane of hyperbolic approaches --------------------------------------------------------------------------------------
     for _ in range(job.get("nbplane", 0)):
         e = float(rng.uniform(1.05, 10))
-        rp = float(rng.uniform(7e6, 5e7))
+        rp = float(rng.uniform(7e6, 5e7)) * fscale
         a = rp / (1 - e)
         nuinf = math.acos(-1 / e)
         nu = float(rng.uniform(-0.9, 0.9)) * nuinf
         kep = [a, e, float(rng.uniform(0.05, 3.0)), float(rng.uniform(0, TWO_PI)), float(rng.uniform(0, TWO_PI)), nu % TWO_PI]
-        o = StateVector(kep, Date(2020, 1, 1), "keplerian", "EME2000")
+        o = StateVector(kep, Date(2020, 1, 1), "keplerian", fframe)
         bp = bplane(o)
         S, T, R, B, h = (np.asarray(x, float) for x in (bp.S, bp.T, bp.R, bp.B, bp.h))
         far = list(kep)
         far[5] = (-0.9999999 * nuinf) % TWO_PI
-        vfar = np.asarray(StateVector(far, Date(2020, 1, 1), "keplerian", "EME2000").copy(form="cartesian"), float)[3:]
+        vfar = np.asarray(StateVector(far, Date(2020, 1, 1), "keplerian", fframe).copy(form="cartesian"), float)[3:]
         vhat = vfar / np.linalg.norm(vfar)
         hh = h / np.linalg.norm(h)
         res["evaluations"] += 1
